@@ -1,1 +1,730 @@
 //! Property-specific engine extensions for C06 (owned by the C06 check).
+//!
+//! * `build_world`: pair world in which only the cheater's key interface has the revoked-state signing policy
+//!   check disabled (everything else as `WorldSpec::build`).
+//! * `x_states`: every holder commitment the cheater X ever had, as the serialized monitor images written
+//!   while that commitment was current (taken from X's recording persister, correlated with the history).
+//! * `StaleX`: a stand-alone, out-of-date `ChannelMonitor` of X fed with the global chain; it produces X's
+//!   revoked commitment and, once that is confirmed, X's HTLC-success / HTLC-timeout transactions (anchor
+//!   types through a `BumpTransactionEventHandlerSync` with X's own off-node wallet).
+//! * chain-only mining and style-aware (possibly delayed) block delivery to one node.
+//! * `TkInfo`: classification of the outputs of the revoked commitment from what the victim V signed.
+//! * `JusticeOracle`: the C06 oracles over `sim.chain` (ground truth), V's broadcasts, events and balances.
+
+use crate::chain::{ChainSim, Reject};
+use crate::ops::*;
+use crate::rec::*;
+use crate::sim::*;
+use crate::world::*;
+use bitcoin::blockdata::block::Block;
+use bitcoin::secp256k1::{Secp256k1, SecretKey};
+use bitcoin::{OutPoint, ScriptBuf, Transaction, TxOut, Txid};
+use lightning::chain::chaininterface::{BroadcasterInterface, ConfirmationTarget, TransactionType};
+use lightning::chain::channelmonitor::{Balance, ChannelMonitor};
+use lightning::chain::BlockLocator;
+use lightning::events::bump_transaction::sync::{BumpTransactionEventHandlerSync, WalletSync};
+use lightning::events::bump_transaction::BumpTransactionEvent;
+use lightning::events::Event;
+use lightning::ln::chan_utils;
+use lightning::ln::functional_test_utils::connect_blocks;
+use lightning::ln::types::ChannelId;
+use lightning::sign::{OutputSpender, SpendableOutputDescriptor};
+use lightning::util::ser::ReadableArgs;
+use lightning::util::test_channel_signer::TestChannelSigner;
+use lightning::util::test_utils::{TestFeeEstimator, TestKeysInterface, TestLogger, TestWalletSource};
+use lightning::util::wallet_utils::WalletSourceSync;
+use std::collections::{BTreeMap, BTreeSet, HashMap};
+use std::sync::{Arc, Mutex};
+use vcore::{CaseResult, Failure};
+
+// -------------------------------------------------------------------------------------------------
+// world
+// -------------------------------------------------------------------------------------------------
+
+/// As `WorldSpec::build(true)` for a pair, but node `x`'s key interface signs revoked holder state.
+pub fn build_world(spec: &WorldSpec, x: usize) -> Sim {
+	let n = 2;
+	let cfg = spec.user_config();
+	let w = World::new(WorldCfg {
+		n,
+		configs: vec![cfg; n],
+		keep_images: true,
+		deferred_monitor: false,
+		connect_style: connect_style_of(spec.connect_style),
+		node_styles: spec.node_styles.iter().map(|s| connect_style_of(*s)).collect(),
+		disable_revocation_policy: vec![x],
+	});
+	for nd in w.nodes.iter() {
+		*nd.fee_estimator.sat_per_kw.lock().unwrap() = spec.feerate;
+		let mut ov = nd.fee_estimator.target_override.lock().unwrap();
+		ov.insert(ConfirmationTarget::MinAllowedAnchorChannelRemoteFee, 253);
+		ov.insert(ConfirmationTarget::MinAllowedNonAnchorChannelRemoteFee, 253);
+		ov.insert(ConfirmationTarget::ChannelCloseMinimum, 253);
+	}
+	let mut sim = Sim::new(w);
+	if spec.ctype != CType::Static {
+		sim.fund_wallets(2);
+	}
+	let v = spec.value_sat[0];
+	let want = v * spec.push_permille[0] as u64;
+	let keep_sat = (v / 5).max(10_000);
+	let push = want.min((v - keep_sat) * 1000);
+	sim.open_channel(0, 1, v, push);
+	sim
+}
+
+// -------------------------------------------------------------------------------------------------
+// X's stored states
+// -------------------------------------------------------------------------------------------------
+
+pub struct XStates {
+	/// every monitor image X's persister was handed for the channel, in order
+	pub images: Vec<Vec<u8>>,
+	/// per holder commitment of X (oldest first): first and last image index written while it was current
+	pub spans: Vec<(usize, usize)>,
+}
+
+/// Correlates X's persister images with the recorded `Persist` calls: a new holder commitment of X starts
+/// with `persist_new_channel` and with every update carrying a `LatestHolderCommitment*` step.
+pub fn x_states(sim: &Sim, x: usize, chan: ChannelId) -> Result<XStates, String> {
+	let images: Vec<Vec<u8>> = sim.w.persisters[x].state.lock().unwrap().images.iter().filter(|(c, _, _, _)| *c == chan).map(|(_, _, b, _)| b.clone()).collect();
+	let mut marks = vec![];
+	for (_, e) in hist_since(0) {
+		match e {
+			HEvent::PersistNew { node, chan: c, .. } if node == x && c == chan => marks.push(true),
+			HEvent::PersistUpdate { node, chan: c, steps, .. } if node == x && c == chan => marks.push(steps.iter().any(|s| s.starts_with("LatestHolderCommitment"))),
+			_ => {},
+		}
+	}
+	if marks.len() != images.len() || marks.first() != Some(&true) {
+		return Err(format!("{} persist calls vs {} images", marks.len(), images.len()));
+	}
+	let mut spans: Vec<(usize, usize)> = vec![];
+	for (i, m) in marks.iter().enumerate() {
+		if *m {
+			spans.push((i, i));
+		} else {
+			spans.last_mut().unwrap().1 = i;
+		}
+	}
+	Ok(XStates { images, spans })
+}
+
+/// Number of X's commitments V can punish: one per distinct `revoke_and_ack` of X that reached V (the j-th
+/// revokes X's j-th oldest commitment, BOLT-2).
+pub fn revoked_count(sim: &Sim, x: usize, v: usize) -> usize {
+	let mut secrets = BTreeSet::new();
+	for (_, e) in sim.log.iter() {
+		if let SEvent::Deliver { from, to, wire: Wire::Revoke(m) } = e {
+			if *from == x && *to == v {
+				secrets.insert(m.per_commitment_secret);
+			}
+		}
+	}
+	secrets.len()
+}
+
+/// commitment numbers whose secret X's signer released
+pub fn released_numbers(x: usize) -> BTreeSet<u64> {
+	hist_since(0).into_iter().filter_map(|(_, e)| if let HEvent::ReleaseSecret { node, idx, .. } = e { (node == x).then_some(idx) } else { None }).collect()
+}
+
+// -------------------------------------------------------------------------------------------------
+// the revoked commitment, classified from what V signed
+// -------------------------------------------------------------------------------------------------
+
+#[derive(Clone, Debug)]
+pub struct TkHtlc {
+	pub vout: u32,
+	/// offered by X (X's second stage is HTLC-timeout) or received by X (HTLC-success)
+	pub offered_by_x: bool,
+	pub value_sat: u64,
+	pub cltv: u32,
+}
+
+#[derive(Clone, Debug)]
+pub struct TkInfo {
+	pub tx: Transaction,
+	pub txid: Txid,
+	pub number: u64,
+	pub htlcs: Vec<TkHtlc>,
+	pub to_local: Option<u32>,
+	pub to_remote: Option<u32>,
+	pub anchors: Vec<u32>,
+	pub channel_value_sat: u64,
+	pub contest_delay: u16,
+}
+
+impl TkInfo {
+	/// outputs X could still take: its delayed balance and every HTLC output (value, outpoint)
+	pub fn contested(&self) -> Vec<(OutPoint, u64)> {
+		let mut v = vec![];
+		if let Some(i) = self.to_local {
+			v.push((OutPoint { txid: self.txid, vout: i }, self.tx.output[i as usize].value.to_sat()));
+		}
+		for h in self.htlcs.iter() {
+			v.push((OutPoint { txid: self.txid, vout: h.vout }, h.value_sat));
+		}
+		v
+	}
+}
+
+/// Find the `sign_counterparty_commitment` call of V that produced `tk` and classify its outputs with the
+/// BOLT-3 script templates (helpers of `chan_utils`, keyed with the channel's static keys).
+pub fn classify_tk(tk: &Transaction, v: usize) -> Result<TkInfo, String> {
+	let txid = tk.compute_txid();
+	for (_, e) in hist_since(0) {
+		let HEvent::SignCounterparty { node, tx, params, .. } = e else { continue };
+		if node != v || tx.trust().txid() != txid {
+			continue;
+		}
+		let dir = params.as_counterparty_broadcastable();
+		let trusted = tx.trust();
+		let keys = trusted.keys();
+		let to_local_spk = chan_utils::get_revokeable_redeemscript(&keys.revocation_key, dir.contest_delay(), &keys.broadcaster_delayed_payment_key).to_p2wsh();
+		let pay = dir.countersignatory_pubkeys().payment_point;
+		let to_remote_spks = [
+			chan_utils::get_to_countersigner_keyed_anchor_redeemscript(&pay).to_p2wsh(),
+			ScriptBuf::new_p2wpkh(&bitcoin::PublicKey::new(pay).wpubkey_hash().unwrap()),
+		];
+		let anchor_spks = [
+			chan_utils::get_keyed_anchor_redeemscript(&dir.broadcaster_pubkeys().funding_pubkey).to_p2wsh(),
+			chan_utils::get_keyed_anchor_redeemscript(&dir.countersignatory_pubkeys().funding_pubkey).to_p2wsh(),
+			chan_utils::shared_anchor_script_pubkey(),
+		];
+		let mut info = TkInfo {
+			tx: tk.clone(),
+			txid,
+			number: tx.commitment_number(),
+			htlcs: vec![],
+			to_local: None,
+			to_remote: None,
+			anchors: vec![],
+			channel_value_sat: dir.channel_value_satoshis(),
+			contest_delay: dir.contest_delay(),
+		};
+		let mut htlc_idx = BTreeSet::new();
+		for h in tx.nondust_htlcs() {
+			let Some(vout) = h.transaction_output_index else { continue };
+			if tk.output.get(vout as usize).map(|o| o.value.to_sat()) != Some(h.amount_msat / 1000) {
+				return Err(format!("HTLC output {} does not carry amount_msat/1000", vout));
+			}
+			htlc_idx.insert(vout);
+			info.htlcs.push(TkHtlc { vout, offered_by_x: h.offered, value_sat: h.amount_msat / 1000, cltv: h.cltv_expiry });
+		}
+		for (i, o) in tk.output.iter().enumerate() {
+			let i = i as u32;
+			if htlc_idx.contains(&i) {
+				continue;
+			}
+			if o.script_pubkey == to_local_spk && info.to_local.is_none() {
+				info.to_local = Some(i);
+			} else if to_remote_spks.contains(&o.script_pubkey) && info.to_remote.is_none() {
+				info.to_remote = Some(i);
+			} else if anchor_spks.contains(&o.script_pubkey) {
+				info.anchors.push(i);
+			} else {
+				return Err(format!("output {} of the revoked commitment is not classifiable", i));
+			}
+		}
+		return Ok(info);
+	}
+	Err("V never signed this commitment".into())
+}
+
+// -------------------------------------------------------------------------------------------------
+// the cheater's stale monitor
+// -------------------------------------------------------------------------------------------------
+
+#[derive(Default)]
+pub struct CollectBroadcaster {
+	pub txs: Mutex<Vec<Transaction>>,
+}
+
+impl BroadcasterInterface for CollectBroadcaster {
+	fn broadcast_transactions(&self, txs: &[(&Transaction, TransactionType)]) {
+		let mut g = self.txs.lock().unwrap();
+		for (t, _) in txs {
+			g.push((*t).clone());
+		}
+	}
+}
+
+type XHandler = BumpTransactionEventHandlerSync<Arc<CollectBroadcaster>, Arc<WalletSync<Arc<TestWalletSource>, &'static TestLogger>>, &'static TestKeysInterface, &'static TestLogger>;
+
+pub struct StaleX {
+	pub mon: ChannelMonitor<TestChannelSigner>,
+	pub bcast: Arc<CollectBroadcaster>,
+	pub wallet: Arc<TestWalletSource>,
+	handler: XHandler,
+	fee_est: &'static TestFeeEstimator,
+	logger: &'static TestLogger,
+	/// height up to which the monitor has been fed
+	pub fed: u32,
+	/// every distinct transaction the stale monitor (or its bump handler) produced, in order
+	pub txs: Vec<Transaction>,
+}
+
+impl StaleX {
+	pub fn new(sim: &Sim, x: usize, image: &[u8]) -> Result<StaleX, String> {
+		let nd = &sim.w.nodes[x];
+		let km: &'static TestKeysInterface = nd.keys_manager;
+		let logger: &'static TestLogger = nd.logger;
+		let mut r = image;
+		let (_, mon) = <(BlockLocator, ChannelMonitor<TestChannelSigner>)>::read(&mut r, (km, km)).map_err(|e| format!("stale monitor does not deserialize: {:?}", e))?;
+		let bcast = Arc::new(CollectBroadcaster::default());
+		let wallet = Arc::new(TestWalletSource::new(SecretKey::from_slice(&[0x77; 32]).unwrap()));
+		let ws = Arc::new(WalletSync::new(Arc::clone(&wallet), logger));
+		let handler = BumpTransactionEventHandlerSync::new(Arc::clone(&bcast), ws, km, logger);
+		let fed = mon.current_best_block().height;
+		Ok(StaleX { mon, bcast, wallet, handler, fee_est: nd.fee_estimator, logger, fed, txs: vec![] })
+	}
+
+	/// transaction funding X's off-node wallet (no inputs: accepted by the chain simulator as external money)
+	pub fn wallet_funding_tx(&self, utxos: usize) -> Transaction {
+		let spk = self.wallet.get_change_script().unwrap();
+		Transaction {
+			version: bitcoin::transaction::Version::TWO,
+			lock_time: bitcoin::absolute::LockTime::ZERO,
+			input: vec![],
+			output: (0..utxos).map(|_| TxOut { value: bitcoin::Amount::ONE_BTC, script_pubkey: spk.clone() }).collect(),
+		}
+	}
+
+	/// X's revoked holder commitment as the stale monitor signs it.
+	pub fn commitment(&self) -> Transaction {
+		self.mon.unsafe_get_latest_holder_commitment_txn(&self.logger)[0].clone()
+	}
+
+	/// Bring the stale monitor to the tip of the global chain (X is always fully synced), let it react
+	/// (HTLC claims on its confirmed commitment) and collect what it wants broadcast.
+	pub fn feed(&mut self, chain: &ChainSim) {
+		let wallet_spk = self.wallet.get_change_script().unwrap();
+		while self.fed < chain.height() {
+			let h = self.fed + 1;
+			let blk = &chain.blocks[h as usize];
+			for tx in blk.txdata.iter() {
+				for i in tx.input.iter() {
+					self.wallet.remove_utxo(i.previous_output);
+				}
+				for (idx, o) in tx.output.iter().enumerate() {
+					if o.script_pubkey == wallet_spk {
+						self.wallet.add_utxo(tx.clone(), idx as u32);
+					}
+				}
+			}
+			let txdata: Vec<(usize, &Transaction)> = blk.txdata.iter().enumerate().collect();
+			self.mon.block_connected(&blk.header, &txdata, h, &*self.bcast, self.fee_est, &self.logger);
+			self.fed = h;
+			self.pump();
+		}
+		self.pump();
+	}
+
+	fn pump(&mut self) {
+		for ev in self.mon.get_and_clear_pending_events() {
+			if let Event::BumpTransaction(b) = &ev {
+				if let BumpTransactionEvent::HTLCResolution { .. } = b {
+					self.handler.handle_event(b);
+				}
+			}
+		}
+		let new: Vec<Transaction> = self.bcast.txs.lock().unwrap().drain(..).collect();
+		for t in new {
+			let id = t.compute_txid();
+			if !self.txs.iter().any(|o| o.compute_txid() == id) {
+				self.txs.push(t);
+			}
+		}
+	}
+
+	/// X's second-stage candidates on top of `tk`: per distinct set of spent commitment outputs the newest
+	/// version, in order of first appearance.
+	pub fn candidates(&self, tk: Txid) -> Vec<Transaction> {
+		let mut groups: Vec<(Vec<OutPoint>, Transaction)> = vec![];
+		for t in self.txs.iter() {
+			let mut key: Vec<OutPoint> = t.input.iter().map(|i| i.previous_output).filter(|o| o.txid == tk).collect();
+			if key.is_empty() {
+				continue;
+			}
+			key.sort();
+			if let Some(g) = groups.iter_mut().find(|(k, _)| *k == key) {
+				g.1 = t.clone();
+			} else {
+				groups.push((key, t.clone()));
+			}
+		}
+		groups.into_iter().map(|(_, t)| t).collect()
+	}
+}
+
+// -------------------------------------------------------------------------------------------------
+// chain-only mining, (delayed) delivery to one node
+// -------------------------------------------------------------------------------------------------
+
+impl Sim {
+	/// Mine a block on the global chain without telling any node.
+	pub fn c06_mine(&mut self, txs: Vec<Transaction>) -> (Block, Vec<(Txid, Reject)>) {
+		let (block, rejected) = self.chain.mine(txs);
+		let height = self.chain.height();
+		self.rec(SEvent::Mined { height, txids: block.txdata.iter().map(|t| t.compute_txid()).collect() });
+		(block, rejected)
+	}
+
+	/// Hand consecutive blocks of the global chain to `node` in its current connect style. Runs of empty
+	/// blocks go through `connect_blocks`, which for the "skipping" styles only notifies the last one (the
+	/// `Confirm` contract allows that); it recreates exactly the blocks the chain simulator mined.
+	pub fn c06_deliver(&mut self, node: usize, blocks: &[Block]) {
+		let mut i = 0;
+		while i < blocks.len() {
+			if blocks[i].txdata.is_empty() {
+				let mut j = i;
+				while j < blocks.len() && blocks[j].txdata.is_empty() {
+					j += 1;
+				}
+				connect_blocks(&self.w.nodes[node], (j - i) as u32);
+				assert_eq!(self.w.nodes[node].best_block_hash(), blocks[j - 1].block_hash(), "harness: node and global chain diverged");
+				let height = self.w.nodes[node].best_block_info().1;
+				self.rec(SEvent::BlockDelivered { node, height });
+				self.w.nodes[node].chain_monitor.added_monitors.lock().unwrap().clear();
+				self.drain(node);
+				i = j;
+			} else {
+				self.deliver_block(node, &blocks[i]);
+				assert_eq!(self.w.nodes[node].best_block_hash(), blocks[i].block_hash(), "harness: node and global chain diverged");
+				i += 1;
+			}
+		}
+	}
+
+	pub fn height_of(&self, node: usize) -> u32 {
+		self.w.nodes[node].best_block_info().1
+	}
+
+	/// best-block height of the newest monitor image `node`'s persister holds for `chan`
+	pub fn c06_image_height(&self, node: usize, chan: ChannelId) -> Option<u32> {
+		let bytes = self.w.persisters[node].state.lock().unwrap().latest.get(&chan).map(|(_, b)| b.clone())?;
+		let km = self.w.nodes[node].keys_manager;
+		let mut r = &bytes[..];
+		<(BlockLocator, ChannelMonitor<TestChannelSigner>)>::read(&mut r, (km, km)).ok().map(|(_, m)| m.current_best_block().height)
+	}
+}
+
+// -------------------------------------------------------------------------------------------------
+// oracles
+// -------------------------------------------------------------------------------------------------
+
+#[derive(Clone, Debug, PartialEq, Eq)]
+pub enum Status {
+	/// nobody spent it yet (tip = the output X could still take after its CSV)
+	Open(OutPoint),
+	/// spent by a transaction V broadcast, confirmed at this height
+	VClaimed(OutPoint, Txid, u32),
+}
+
+#[derive(Default, Debug, Clone)]
+pub struct JStats {
+	pub v_broadcasts: u64,
+	pub benign_conflicts: u64,
+	pub reissues: u64,
+	pub reissues_bumped: u64,
+	pub balance_checks: u64,
+	pub max_revoked_balances: usize,
+}
+
+pub struct JusticeOracle {
+	pub v: usize,
+	pub chan: ChannelId,
+	pub tk: TkInfo,
+	cur_log: usize,
+	pub v_txids: BTreeSet<Txid>,
+	/// V's broadcasts in order (distinct)
+	pub v_txs: Vec<Transaction>,
+	/// (c): per exact set of contested inputs the last issued version: (fee, feerate sat/kw, txid)
+	issued: BTreeMap<Vec<OutPoint>, (u64, f64, Txid)>,
+	/// announced `SpendableOutputs` descriptors by outpoint
+	pub descriptors: BTreeMap<OutPoint, SpendableOutputDescriptor>,
+	pub stats: JStats,
+}
+
+fn fail(oracle: &str, detail: String) -> Failure {
+	Failure::new(oracle, detail)
+}
+
+impl JusticeOracle {
+	pub fn new(sim: &Sim, v: usize, chan: ChannelId, tk: TkInfo) -> JusticeOracle {
+		let mut o = JusticeOracle { v, chan, tk, cur_log: 0, v_txids: BTreeSet::new(), v_txs: vec![], issued: BTreeMap::new(), descriptors: BTreeMap::new(), stats: JStats::default() };
+		// broadcasts of V before the cheat (e.g. its own force close) still count as V's transactions
+		for (_, e) in sim.log.iter() {
+			if let SEvent::Broadcast { node, tx, .. } = e {
+				if *node == v && o.v_txids.insert(tx.compute_txid()) {
+					o.v_txs.push(tx.clone());
+				}
+			}
+		}
+		o.cur_log = sim.log.len();
+		o
+	}
+
+	fn prevout(&self, sim: &Sim, op: &OutPoint) -> Option<TxOut> {
+		sim.chain.seen.get(&op.txid).and_then(|t| t.output.get(op.vout as usize).cloned())
+	}
+
+	/// the outpoints V has to take from X at this moment of the global chain, looking only at blocks up to
+	/// `upto`: X's delayed balance, each HTLC output, or — where a second-stage transaction of X spent an
+	/// HTLC output — that transaction's output at the index of the spending input (BOLT-3: one in / one out,
+	/// or SIGHASH_SINGLE|ANYONECANPAY pairs for anchor types).
+	pub fn statuses(&self, sim: &Sim, upto: u32) -> Vec<(OutPoint, u64, Status)> {
+		let spender = |op: &OutPoint| -> Option<(Txid, u32, Transaction)> {
+			let id = sim.chain.spent_by.get(op)?;
+			let (tx, h) = sim.chain.confirmed.get(id)?;
+			(*h <= upto).then(|| (*id, *h, tx.clone()))
+		};
+		let mut out = vec![];
+		for (op, val) in self.tk.contested() {
+			let mut tip = op;
+			let mut st = Status::Open(tip);
+			for _ in 0..2 {
+				match spender(&tip) {
+					None => {
+						st = Status::Open(tip);
+						break;
+					},
+					Some((id, h, _)) if self.v_txids.contains(&id) => {
+						st = Status::VClaimed(tip, id, h);
+						break;
+					},
+					Some((id, _, tx)) => {
+						// X's second stage: follow to the paired output
+						let idx = tx.input.iter().position(|i| i.previous_output == tip).unwrap();
+						tip = OutPoint { txid: id, vout: idx as u32 };
+						st = Status::Open(tip);
+					},
+				}
+			}
+			out.push((op, val, st));
+		}
+		out
+	}
+
+	/// Process everything the simulator recorded since the last call. `h_known`: the height up to which V had
+	/// been told about the chain when it started the action that produced these broadcasts (a conflict with
+	/// something confirmed above that height is not V's fault).
+	pub fn scan(&mut self, sim: &Sim, h_known: u32) -> CaseResult {
+		let new: Vec<SEvent> = sim.log[self.cur_log..].iter().map(|(_, e)| e.clone()).collect();
+		self.cur_log = sim.log.len();
+		let mut missing: Vec<(Txid, OutPoint)> = vec![];
+		for e in new {
+			match e {
+				SEvent::Broadcast { node, tx, verdict, height } if node == self.v => {
+					let id = tx.compute_txid();
+					self.stats.v_broadcasts += 1;
+					let fresh = self.v_txids.insert(id);
+					if fresh {
+						self.v_txs.push(tx.clone());
+					}
+					// (a) consensus validity as a candidate for the next block
+					match &verdict {
+						Ok(_) | Err(Reject::Duplicate) | Err(Reject::MempoolConflict(_)) => {},
+						Err(Reject::AlreadySpent(op, sp)) => {
+							let h = sim.chain.confirmed.get(sp).map(|(_, h)| *h).unwrap_or(u32::MAX);
+							if h <= h_known {
+								return Err(fail("v-tx-invalid", format!("V broadcast {} at height {} spending {} which V knew (height {}) was spent by {} at {}", id, height, op, h_known, sp, h)).with_key("v-tx-invalid/already-spent"));
+							}
+							self.stats.benign_conflicts += 1;
+						},
+						Err(Reject::MissingInput(op)) => missing.push((id, *op)),
+						Err(r) => {
+							let kind = format!("{:?}", r);
+							let kind = kind.split(|c: char| !c.is_alphanumeric()).next().unwrap_or("").to_string();
+							return Err(fail("v-tx-invalid", format!("V broadcast {} at height {}: {:?}; tx {}", id, height, r, bitcoin::consensus::encode::serialize_hex(&tx))).with_key(format!("v-tx-invalid/{}", kind)));
+						},
+					}
+					// (c) fee monotonicity of re-issued claims on the same contested outpoints
+					if fresh {
+						self.fee_rule(sim, &tx)?;
+					}
+				},
+				SEvent::Ldk { node, ev: Event::SpendableOutputs { outputs, .. } } if node == self.v => {
+					for d in outputs {
+						let op = match &d {
+							SpendableOutputDescriptor::StaticOutput { outpoint, .. } => outpoint.into_bitcoin_outpoint(),
+							SpendableOutputDescriptor::DelayedPaymentOutput(x) => x.outpoint.into_bitcoin_outpoint(),
+							SpendableOutputDescriptor::StaticPaymentOutput(x) => x.outpoint.into_bitcoin_outpoint(),
+						};
+						self.descriptors.insert(op, d);
+					}
+				},
+				_ => {},
+			}
+		}
+		for (id, op) in missing {
+			// an unconfirmed parent of V's own (package broadcast in any order, or a child of V's commitment
+			// that lost against the revoked one) is fine; spending an output nobody ever created is not
+			if !self.v_txids.contains(&op.txid) {
+				return Err(fail("v-tx-invalid", format!("V broadcast {} spending unknown output {}", id, op)).with_key("v-tx-invalid/missing-input"));
+			}
+			self.stats.benign_conflicts += 1;
+		}
+		Ok(())
+	}
+
+	fn is_contestable(&self, sim: &Sim, op: &OutPoint) -> bool {
+		if op.txid == self.tk.txid {
+			return self.tk.contested().iter().any(|(o, _)| o == op);
+		}
+		// an output of a (non-V) transaction spending the revoked commitment
+		if self.v_txids.contains(&op.txid) {
+			return false;
+		}
+		sim.chain.seen.get(&op.txid).map(|t| t.input.iter().any(|i| i.previous_output.txid == self.tk.txid)).unwrap_or(false)
+	}
+
+	fn fee_rule(&mut self, sim: &Sim, tx: &Transaction) -> CaseResult {
+		if tx.input.is_empty() || !tx.input.iter().all(|i| self.is_contestable(sim, &i.previous_output)) {
+			return Ok(());
+		}
+		let mut key: Vec<OutPoint> = tx.input.iter().map(|i| i.previous_output).collect();
+		key.sort();
+		let mut in_sum = 0u64;
+		for op in key.iter() {
+			let Some(o) = self.prevout(sim, op) else { return Ok(()) };
+			in_sum += o.value.to_sat();
+		}
+		let out_sum: u64 = tx.output.iter().map(|o| o.value.to_sat()).sum();
+		let fee = in_sum.saturating_sub(out_sum);
+		let rate = fee as f64 * 1000.0 / tx.weight().to_wu() as f64;
+		let id = tx.compute_txid();
+		if let Some((pfee, prate, pid)) = self.issued.get(&key).cloned() {
+			// "while a V claim is unconfirmed": the previous version is not on the chain
+			if !sim.chain.confirmed.contains_key(&pid) {
+				self.stats.reissues += 1;
+				if fee > pfee {
+					self.stats.reissues_bumped += 1;
+				}
+				// 2 % tolerance for signature-size variance (DESIGN §8.1)
+				if (fee as f64) < pfee as f64 * 0.98 || rate < prate * 0.98 {
+					return Err(fail("fee-monotonic", format!("claim for {:?} re-issued as {} with fee {} sat / {:.1} sat/kw after {} with {} sat / {:.1} sat/kw", key, id, fee, rate, pid, pfee, prate)));
+				}
+			}
+		}
+		self.issued.insert(key, (fee, rate, id));
+		Ok(())
+	}
+
+	/// (d, balances) `CounterpartyRevokedOutputClaimable` is reported for exactly the outputs V has not yet
+	/// taken, in V's own view of the chain (blocks delivered to it).
+	pub fn check_balances(&mut self, sim: &Sim) -> CaseResult {
+		let hv = sim.height_of(self.v);
+		let Ok(mon) = sim.w.nodes[self.v].chain_monitor.chain_monitor.get_monitor(self.chan) else { return Ok(()) };
+		let bals = mon.get_claimable_balances();
+		let mut got: Vec<u64> = bals.iter().filter_map(|b| if let Balance::CounterpartyRevokedOutputClaimable { amount_satoshis } = b { Some(*amount_satoshis) } else { None }).collect();
+		got.sort();
+		let tk_seen = sim.chain.confirmed.get(&self.tk.txid).map(|(_, h)| *h <= hv).unwrap_or(false);
+		let mut want: Vec<u64> = if tk_seen { self.statuses(sim, hv).into_iter().filter(|(_, _, s)| matches!(s, Status::Open(_))).map(|(_, v, _)| v).collect() } else { vec![] };
+		want.sort();
+		self.stats.balance_checks += 1;
+		self.stats.max_revoked_balances = self.stats.max_revoked_balances.max(got.len());
+		if got != want {
+			let key = if got.len() < want.len() { "revoked-balances/missing" } else if got.len() > want.len() { "revoked-balances/extra" } else { "revoked-balances/amount" };
+			return Err(fail("revoked-balances", format!("at V height {}: CounterpartyRevokedOutputClaimable amounts {:?}, unresolved revoked outputs {:?}; statuses {:?}; all balances {:?}", hv, got, want, self.statuses(sim, hv), bals)).with_key(key));
+		}
+		Ok(())
+	}
+
+	/// transactions of V that could be mined in the next block: newest first, mutually non-conflicting
+	pub fn v_mineable(&self, sim: &Sim) -> Vec<Transaction> {
+		let mut chosen: Vec<Transaction> = vec![];
+		let mut used: BTreeSet<OutPoint> = BTreeSet::new();
+		let next = sim.chain.height() + 1;
+		for tx in self.v_txs.iter().rev() {
+			if sim.chain.confirmed.contains_key(&tx.compute_txid()) || tx.input.iter().any(|i| used.contains(&i.previous_output)) {
+				continue;
+			}
+			if sim.chain.check_tx(tx, next, &HashMap::new(), false).is_ok() {
+				for i in tx.input.iter() {
+					used.insert(i.previous_output);
+				}
+				chosen.push(tx.clone());
+			}
+		}
+		chosen
+	}
+
+	/// (b) + (d) at the end of the case: X keeps nothing, the recovered value is announced and sweepable, the
+	/// channel value is accounted for, no balance is left.
+	pub fn finish(&mut self, sim: &Sim) -> CaseResult {
+		let tip = sim.chain.height();
+		let st = self.statuses(sim, tip);
+		for (op, val, s) in st.iter() {
+			if let Status::Open(t) = s {
+				return Err(fail("x-keeps-output", format!("output {} ({} sat) of the revoked commitment was never taken by V: {} is unspent at the end (X's CSV {} would let X sweep it)", op, val, t, self.tk.contest_delay)).with_key(if t == op { "x-keeps-output/commitment" } else { "x-keeps-output/second-stage" }));
+			}
+		}
+		// expected descriptors: V's balance output and every output of V's confirmed justice transactions
+		let mut expect: BTreeMap<OutPoint, u64> = BTreeMap::new();
+		if let Some(i) = self.tk.to_remote {
+			expect.insert(OutPoint { txid: self.tk.txid, vout: i }, self.tk.tx.output[i as usize].value.to_sat());
+		}
+		let mut v_fees = 0u64;
+		let mut seen_j = BTreeSet::new();
+		for (_, _, s) in st.iter() {
+			if let Status::VClaimed(_, id, _) = s {
+				if !seen_j.insert(*id) {
+					continue;
+				}
+				let (tx, _) = &sim.chain.confirmed[id];
+				let ins: u64 = tx.input.iter().map(|i| self.prevout(sim, &i.previous_output).map(|o| o.value.to_sat()).unwrap_or(0)).sum();
+				let outs: u64 = tx.output.iter().map(|o| o.value.to_sat()).sum();
+				v_fees += ins - outs;
+				for (k, o) in tx.output.iter().enumerate() {
+					expect.insert(OutPoint { txid: *id, vout: k as u32 }, o.value.to_sat());
+				}
+			}
+		}
+		for (op, val) in expect.iter() {
+			if !self.descriptors.contains_key(op) {
+				return Err(fail("spendable-missing", format!("no SpendableOutputs descriptor for {} ({} sat) {} blocks after everything confirmed", op, val, tip - sim.chain.confirmed.get(&op.txid).map(|(_, h)| *h).unwrap_or(tip))).with_key(if op.txid == self.tk.txid { "spendable-missing/to-remote" } else { "spendable-missing/justice" }));
+			}
+		}
+		// value accounting: what X's second-stage transactions burnt from the contested outputs
+		let mut x_fees = 0u64;
+		for (op, val, s) in st.iter() {
+			let Status::VClaimed(t, _, _) = s else { continue };
+			if t != op {
+				x_fees += val - self.prevout(sim, t).map(|o| o.value.to_sat()).unwrap_or(0);
+			}
+		}
+		let tk_out: u64 = self.tk.tx.output.iter().map(|o| o.value.to_sat()).sum();
+		let anchors: u64 = self.tk.anchors.iter().map(|i| self.tk.tx.output[*i as usize].value.to_sat()).sum();
+		let tk_fee = self.tk.channel_value_sat - tk_out; // includes trimmed dust
+		let announced: u64 = self.descriptors.iter().filter(|(op, _)| expect.contains_key(op)).map(|(op, _)| self.prevout(sim, op).map(|o| o.value.to_sat()).unwrap_or(0)).sum();
+		if self.tk.channel_value_sat != announced + tk_fee + anchors + x_fees + v_fees {
+			return Err(fail("value-accounting", format!("channel value {} != announced spendable {} + commitment fee and dust {} + anchors {} + X second-stage fees {} + V claim fees {}", self.tk.channel_value_sat, announced, tk_fee, anchors, x_fees, v_fees)));
+		}
+		// every announced descriptor is really spendable with V's keys
+		if !self.descriptors.is_empty() {
+			let nd = &sim.w.nodes[self.v];
+			let descs: Vec<&SpendableOutputDescriptor> = self.descriptors.values().collect();
+			let secp = Secp256k1::new();
+			let dest = ScriptBuf::new_p2wpkh(&bitcoin::PublicKey::new(nd.node.get_our_node_id()).wpubkey_hash().unwrap());
+			let sweep = nd.keys_manager.backing.spend_spendable_outputs(&descs, vec![], dest, 253, None, &secp).map_err(|_| fail("sweep", "spend_spendable_outputs failed on the announced descriptors".into()))?;
+			if let Err(r) = sim.chain.check_tx(&sweep, tip + 1, &HashMap::new(), false) {
+				return Err(fail("sweep", format!("the sweep of the announced descriptors is rejected by consensus: {:?}", r)));
+			}
+			let swept: u64 = sweep.input.iter().map(|i| self.prevout(sim, &i.previous_output).map(|o| o.value.to_sat()).unwrap_or(0)).sum();
+			let all: u64 = self.descriptors.keys().map(|op| self.prevout(sim, op).map(|o| o.value.to_sat()).unwrap_or(0)).sum();
+			if swept != all || sweep.input.len() != self.descriptors.len() {
+				return Err(fail("sweep", format!("sweep spends {} sat of {} announced", swept, all)));
+			}
+		}
+		// nothing is left to claim
+		if let Ok(mon) = sim.w.nodes[self.v].chain_monitor.chain_monitor.get_monitor(self.chan) {
+			let bals = mon.get_claimable_balances();
+			if !bals.is_empty() {
+				return Err(fail("balances-not-empty", format!("after everything is buried and announced V still reports {:?}", bals)));
+			}
+		}
+		Ok(())
+	}
+}
